@@ -111,8 +111,11 @@ func newType(typeName string, old ast.LlvmNode, index map[string]*ast.TypeDef, t
 		track[typeName] = true
 		newIdent := localIdent(old.Name())
 		newName := getTypeName(newIdent)
-		newTyp := index[newName].Typ()
-		return newType(newName, newTyp, index, track)
+		newDef, ok := index[newName]
+		if !ok {
+			return nil, errors.Errorf("unable to locate type definition of named type %q", enc.TypeName(newName))
+		}
+		return newType(newName, newDef.Typ(), index, track)
 	default:
 		panic(fmt.Errorf("support for type %T not yet implemented", old))
 	}
